@@ -234,6 +234,10 @@ func (f *InterestNameField) GenReadFrom() (string, error) {
 	g.printlnf("{")
 
 	g.execTemplS("NameEncodeInto", `
+		if l > enc.TLNum(reader.Length()-reader.Pos()) {
+			// the announced length exceeds what is left to read: do not allocate for it
+			return nil, enc.ErrFailToParse{TypeNum: typ, Err: io.ErrUnexpectedEOF}
+		}
 		value.{{.Name}} = make(enc.Name, l/2+1)
 		startName := reader.Pos()
 		endName := startName + int(l)
